@@ -11,7 +11,16 @@ Records are abstract byte strings (record *splitting* is C07's business).
 Ghost fields (never read by the machine, only written): `iters`, `gl`, `glv` count the records taken by the main loop,
 by plain `getline` and by `getline var` — at the *call sites*, while `nr`/`fnr` are incremented inside `nextLine` as in
 the Go code; `consumed` logs every ARGV operand fetched; `takes` logs every record taken from the main input; `edited` records whether
-the program has assigned ARGV / ARGC or executed nextfile.
+the program has assigned ARGV / ARGC / FILENAME or executed nextfile; `walkEdited` the same without FILENAME (only what can
+change the operand walk).
+
+Two special variables can be written by everybody: a `FILENAME=x` / `FS=x` operand (or `-v`, i.e. the initial state) through
+`setVarByName`, the program through `Op.setFilename` / `Op.setFs`.
+* Nothing in the operand walk READS `filename`: whether stdin is the default input is decided by `hadFiles`, which only
+  `setFile` sets.
+* `fsep` is the current FS; `recFs` is the FS saved when `$0` was last set (`savedFieldSep` in `setLine`): NF of the current
+  record is computed from `recFs`, so an assignment to FS — by the program, or by an operand reached while looking for the
+  next record or for the end of the input — changes the splitting of the records read afterwards and of none read before.
 -/
 namespace GoawkModel.C11
 
@@ -63,6 +72,18 @@ def nfAux : Bytes → Bool → Nat
     else if inWord then nfAux cs true else 1 + nfAux cs true
 
 def nfOf (l : Bytes) : Nat := nfAux l false
+
+def countByte (c : UInt8) : Bytes → Nat
+  | [] => 0
+  | x :: xs => (if x = c then 1 else 0) + countByte c xs
+
+/-- field count under a given FS (`ensureFields`): `" "` = the default splitting; a single other byte splits at every
+occurrence, the empty record having no fields (multi-byte FS = regex splitting is not modelled) -/
+def nfWith (fs line : Bytes) : Nat :=
+  if fs = [32] then nfOf line else
+  match fs with
+  | [c] => if line = [] then 0 else countByte c line + 1
+  | _ => nfOf line
 
 inductive Event
   /-- `emit tag`: NR FNR FILENAME $0 NF vars; `ghost` = iters+gl+glv at that moment -/
@@ -126,6 +147,10 @@ structure St where
   consumed : List Bytes := []   -- newest first
   takes : List TakeInfo := []   -- newest first
   edited : Bool := false        -- the program has assigned ARGV / ARGC or executed nextfile
+  walkEdited : Bool := false    -- the program has assigned ARGV / ARGC or executed nextfile
+  -- field splitting: FS now, and FS as it was when `$0` was last set (`savedFieldSep`)
+  fsep : Bytes := [32]
+  recFs : Bytes := [32]
   visits : List Visit := []     -- newest first
   ilog : List LogEntry := []    -- newest first: operand fetches and record deliveries in one sequence
   -- `callDepth`: the number of user-function calls in progress
@@ -158,11 +183,27 @@ def setPad : List Bytes → Nat → Bytes → List Bytes
 def St.setFile (s : St) (name : Bytes) (stdin : Bool) (rs : List Rec) : St :=
   { s with filename := name, fnr := 0, hadFiles := true, cur := some rs, onStdin := stdin }
 
-/-- `setVarByName` restricted to the program's global scalars (unknown names are ignored, as in the Go code) -/
+/-- the bytes of `FILENAME` -/
+def fileNameVar : Bytes := [70, 73, 76, 69, 78, 65, 77, 69]
+
+/-- the bytes of `FS` -/
+def fsVar : Bytes := [70, 83]
+
+/-- `setVarByName`: the special variables FILENAME and FS (`setSpecial` stores the value and nothing else), else the
+program's global scalars (unknown names are ignored, as in the Go code) -/
 def St.setVarByName (s : St) (name val : Bytes) : St :=
+  if name = fileNameVar then { s with filename := val } else
+  if name = fsVar then { s with fsep := val } else
   match indexOf name s.varNames 0 with
   | some i => { s with vars := setPad s.vars i val }
   | none => s
+
+/-- the program assigns FILENAME (`setSpecial(V_FILENAME)`): the value is stored; `hadFiles` and the operand cursor are not
+touched -/
+def St.assignFilename (s : St) (v : Bytes) : St := { s with filename := v, edited := true }
+
+/-- the program assigns FS (`setSpecial(V_FS)`): the current record keeps the FS it was read with -/
+def St.assignFs (s : St) (v : Bytes) : St := { s with fsep := v }
 
 def St.setVar (s : St) (i : Nat) (val : Bytes) : St := { s with vars := setPad s.vars i val }
 
@@ -176,19 +217,19 @@ def St.fetch (s : St) : Bytes × St :=
   let o := s.argv.getD s.idx []
   (o, { s with idx := s.idx + 1, consumed := o :: s.consumed, ilog := .op o :: s.ilog })
 
-def St.setLine (s : St) (l : Bytes) : St := { s with line := l }
+def St.setLine (s : St) (l : Bytes) : St := { s with line := l, recFs := s.fsep }
 
 def St.emitEv (s : St) (e : Event) : St := { s with out := e :: s.out }
 
 /-- the main loop took record `r`: count it (ghost) and make it `$0` -/
-def St.beginRecord (s : St) (r : Rec) : St := { s with iters := s.iters + 1, line := r }
+def St.beginRecord (s : St) (r : Rec) : St := { s with iters := s.iters + 1, line := r, recFs := s.fsep }
 
 /-- `p.scanner = nil` (nextfile) -/
-def St.dropScanner (s : St) : St := { s with cur := none, edited := true }
+def St.dropScanner (s : St) : St := { s with cur := none, edited := true, walkEdited := true }
 
 def St.setStatus (s : St) (n : Nat) : St := { s with status := n }
-def St.setArgv (s : St) (i : Nat) (v : Bytes) : St := { s with argv := setPad s.argv i v, edited := true }
-def St.setArgc (s : St) (n : Nat) : St := { s with argc := n, edited := true }
+def St.setArgv (s : St) (i : Nat) (v : Bytes) : St := { s with argv := setPad s.argv i v, edited := true, walkEdited := true }
+def St.setArgc (s : St) (n : Nat) : St := { s with argc := n, edited := true, walkEdited := true }
 
 /-- `maxCallDepth` of `interp/interp.go` -/
 def maxCallDepth : Nat := 1000
@@ -273,13 +314,20 @@ inductive Op
   | setArgc (n : Nat)
   /-- `close(file)` -/
   | close (f : Bytes)
+  /-- `FILENAME = v` -/
+  | setFilename (v : Bytes)
+  /-- `FS = v` -/
+  | setFs (v : Bytes)
 
 inductive Sig
   | normal | next | nextfile | exit | fatal
   deriving Repr, DecidableEq
 
+/-- NF of the current record: split with the FS saved when the record was set -/
+def St.nf (s : St) : Nat := nfWith s.recFs s.line
+
 def St.doEmit (s : St) (tag : Nat) : St :=
-  s.emitEv (.emit tag s.nr s.fnr s.filename s.line (nfOf s.line) s.vars (s.iters + s.gl + s.glv))
+  s.emitEv (.emit tag s.nr s.fnr s.filename s.line s.nf s.vars (s.iters + s.gl + s.glv))
 
 def doGetline (s : St) : St :=
   match nextLine s with
@@ -331,6 +379,8 @@ def execOp : Op → St → Sig × St
   | .setArgv i v, s => (.normal, s.setArgv i v)
   | .setArgc n, s => (.normal, s.setArgc n)
   | .close f, s => (.normal, s.closeStream f)
+  | .setFilename v, s => (.normal, s.assignFilename v)
+  | .setFs v, s => (.normal, s.assignFs v)
 def execOps : List Op → St → Sig × St
   | [], s => (.normal, s)
   | o :: os, s =>
